@@ -91,6 +91,14 @@ def run(F, cfg, inp):
         return d
     ob = dict(get_val=O.snap(x.get_val()), as_float=O.snap(x.astype(float)), as_int=O.snap(x.astype(int)), raw=O.snap(x.raw()),
               uraw=O.snap(x.uraw()), call=O.snap(x()))
+    if shape:
+        # the same conversions on derived objects: an element taken by indexing, and a (keep-mode) shift by zero
+        e = x[1]
+        ob['elem'] = dict(bool_=bool(e), float_=type(e).__float__(e), int_=type(e).__int__(e), call=O.snap(e()), raw=O.snap(e.raw()))
+    else:
+        x.config.shifting = 'keep'
+        z = x >> 0
+        ob['shifted'] = dict(bool_=bool(z), float_=type(z).__float__(z), call=O.snap(z()))
     if not shape:
         # the methods behind float() / int() / bool(), called directly (on the lifted side they return terms, which the builtins would refuse)
         ob.update(float_=type(x).__float__(x), int_=type(x).__int__(x), bool_=bool(x))
@@ -128,6 +136,16 @@ def post(cfg, inp, ob):
         out.append(('astype_int_floor_%d' % i, SP.dy_eq(SP.dy(O.cells(ob['as_int'])[i]), (fl, 0))))
         out.append(('raw_%d' % i, T.icmp(O.cells(ob['raw'])[i], a[i], '==')))
         out.append(('uraw_%d' % i, T.icmp(O.cells(ob['uraw'])[i], T.imod_pow2(a[i], nw), '==')))
+    for key, cell in (('elem', a[1] if shape else None), ('shifted', a[0] if not shape else None)):
+        d = ob.get(key)
+        if d is None or cell is None:
+            continue
+        out.append((key + ':bool()', SP.IFF(d['bool_'], T.icmp(cell, 0, '!='))))
+        out.append((key + ':float()', SP.dy_eq(SP.dy(d['float_']), (cell, -fx))))
+        out.append((key + ':call', SP.dy_eq(SP.dy(O.cells(d['call'])[0]), (cell, -fx))))
+        if 'int_' in d:
+            out.append((key + ':int()', SP.dy_eq(SP.dy(d['int_']), (SP.ROUND((cell, -fx), 'floor'), 0))))
+            out.append((key + ':raw', T.icmp(O.cells(d['raw'])[0], cell, '==')))
     if not shape:
         out.append(('float()', SP.dy_eq(SP.dy(ob['float_']), (a[0], -fx))))
         out.append(('int()', SP.dy_eq(SP.dy(ob['int_']), (SP.ROUND((a[0], -fx), 'floor'), 0))))
